@@ -48,7 +48,8 @@ FAMILIES = {
 TIER_OVERRIDES = {
     ("reap", "quick"): dict(KC=1, KM=1, EnvOn=["Tick", "PodArrive", "PodSchedule", "PodFinish", "ExtTaint"], TaintKinds=["now", "bad"]),
     ("force", "quick"): dict(KC=1, KM=1, EnvOn=["Tick", "PodArrive", "PodSchedule", "PodFinish", "ExtForce", "ExtTaint"], TaintKinds=["now"], FaultOps=["terminate"]),
-    ("reap", "thorough"): dict(KC=1, KM=1, EnvOn=["Tick", "PodArrive", "PodSchedule", "PodFinish", "ExtForce", "ExtTaint", "Restart", "Cordon"], TaintKinds=["now", "bad"]),
+    ("reap", "thorough"): dict(KC=1, KM=1, EnvOn=["Tick", "PodArrive", "PodSchedule", "PodFinish", "ExtTaint", "Restart", "NodeGone"], TaintKinds=["now", "bad", "zero"]),
+    ("force", "thorough"): dict(KC=1, KM=1, EnvOn=["Tick", "PodArrive", "PodSchedule", "PodFinish", "ExtForce", "ExtUnforce", "ExtTaint", "Restart"], TaintKinds=["now"], FaultOps=["terminate", "delete"]),
     ("annot", "quick"): dict(KC=1, KM=1),
     ("cordon", "quick"): dict(KC=1, KM=1, EnvOn=["Tick", "PodArrive", "PodSchedule", "PodFinish", "Cordon", "Uncordon", "ExtTaint", "ExtForce"]),
     ("lock", "quick"): dict(KC=1, KM=1, MaxPend=1, EnvOn=["Tick", "PodArrive", "PodFinish", "CloudLaunch", "Register", "Cordon", "ExtForce", "Restart"]),
